@@ -44,20 +44,19 @@ def writableProp (pom : Pom) (d : Dep) (n : Str) : Bool :=
   let po := if hasPrefix sProfile d.origin then cutSuffix d.origin ('@' :: sManagement) else []
   pom.props.any fun p => p.name = n && (p.origin = [] || p.origin = po)
 
-/-- class predicate of C13/pom-property-other-profile: an updated dependency's version uses a property
-that some local `<properties>` defines (so fix f5d17448's by-name test passes) but none that a patch
-for this dependency is written to -/
+/-- the situation of the former class C13/pom-property-other-profile (repaired by 95fbdd2e: such a dependency is now
+updated directly): an updated dependency's version uses a property that some local `<properties>` defines but none that a
+patch for this dependency is written to -/
 def otherProfileProp (pom : Pom) (us : List Upd) : Bool :=
   us.any fun u => (hits pom u).any fun d =>
     (namesOf d.ver).any fun n => pom.props.any (fun p => p.name = n) && !writableProp pom d n
 
 /-- known classes, most specific first; `none` = the case is inside the requirement-level statement.
-(The classes key-whitespace, undefined-property and props-repeated-name were repaired by fixes 5743d35a,
-f5d17448 and d4dd80ce.) -/
+(The classes key-whitespace, undefined-property, props-repeated-name and property-other-profile were repaired by fixes
+5743d35a, f5d17448, d4dd80ce and 95fbdd2e.) -/
 def feature (pom : Pom) (us : List Upd) : Option String :=
   if keyProperty pom us then some "C13/pom-key-property"
   else if us.any (fun u => (hits pom u).length ≥ 2) then some "C13/pom-origin-ignored"
-  else if otherProfileProp pom us then some "C13/pom-property-other-profile"
   else if us.any (fun u => (hits pom u).any fun d =>
       (namesOf d.ver).any fun n => pom.deps.any fun d' => d' ≠ d && (namesOf d'.ver).contains n) then
     some "C13/pom-shared-property"
